@@ -54,6 +54,7 @@ type JobRec struct {
 	Threads      float64     `json:"threads,omitempty"`
 	MemGB        float64     `json:"mem_gb,omitempty"`
 	JobType      string      `json:"job_type,omitempty"`
+	VMemGB float64 `json:"vmem_gb,omitempty"`
 	MissingFiles []string    `json:"missing_files,omitempty"`
 	Wrote        []string    `json:"-"`
 	proc         *vrt.Proc
@@ -343,7 +344,7 @@ func (r *Run) jobMain(j *JobRec) int {
 		j.check()
 	}
 	if err := md.ReadInto(core.JobInfoFile, &ji); err == nil {
-		j.Threads, j.MemGB, j.JobType = ji.Threads, ji.MemGB, ji.Type
+		j.Threads, j.MemGB, j.VMemGB, j.JobType = ji.Threads, ji.MemGB, ji.VMemGB, ji.Type
 		ji.Pid = j.Pid
 		ji.Cwd = j.FilesPath
 		md.WriteAtomic(core.JobInfoFile, &ji)
@@ -578,7 +579,10 @@ func (r *Run) jobMain(j *JobRec) int {
 			for k, v := range c {
 				d[k] = v
 			}
-			if th, mem := r.chunkResources(j, i); th != 0 || mem != 0 {
+			if th, mem, vm := r.chunkResources(j, i); th != 0 || mem != 0 || vm != 0 {
+				if vm != 0 {
+					d["__vmem_gb"] = vm
+				}
 				if th != 0 {
 					d["__threads"] = th
 				}
